@@ -114,6 +114,7 @@ def gen_scenario_cli(rng):
     return s
 
 
+FAILED_OPT = 30
 LINE_OPTIONS = ["%s -k --vro current", "%s --keep --vro current", "%s --vro current -k", "-k --vro current %s",
                 "%s --vro current", "%s -k", "%s -k --vro latest", "%s --vro latest", "%s -k 1.0", "%s -k --vro current 1.0"]
 
@@ -153,6 +154,28 @@ def gen_scenario_line_options(rng):
         for q in reqs:
             q["cli"] = True
     return {"world": w, "requests": reqs, "env0": {"PATH": "/usr/bin:/bin"}}
+
+
+FAILED_OPTIONAL = ['%s 1.0 --vro "version!"', "%s 1.0 --vro current", "%s 1.0 -k", "%s 1.0", '%s --vro "version!"']
+
+
+def gen_scenario_failed_optional(rng):
+    """round 7.  An optional line (with or without option words of its own) whose product IS declared but fails half-way
+    because a required dependency of its own table is declared nowhere: the failure is swallowed by the optional line, and
+    the sibling lines that follow must be treated exactly as if the line had not been there - under --keep every product
+    set up beforehand retains its version"""
+    sc = gen_scenario_line_options(rng)
+    w = sc["world"]
+    bad, top = "p5", "p4"
+    w["products"][bad] = {"1.0": S.small_own(rng, bad) + ["setupRequired(p6)"]}
+    w["current"][bad] = "1.0"
+    lines = [("setupRequired(p2 2.0)" if l == "setupRequired(p2)" and rng.random() < 0.7 else l)
+             for l in w["products"][top]["1.0"]]
+    lines.insert(rng.choice([0, 0, rng.randrange(len(lines) + 1)]),
+                 "setupOptional(%s)" % (rng.choice(FAILED_OPTIONAL) % bad))
+    w["products"][top]["1.0"] = lines
+    w["family"] = "failed-optional-line"
+    return sc
 
 
 def oracle_versions_reached(ctx, s, res):
@@ -394,6 +417,11 @@ def run(ctx):
         ctx.bump("family:" + sc["world"]["family"])
     S.run_scenarios_basic(ctx, named, oracle_versions_reached)
     S.run_scenarios(ctx, opts, oracle)
+    # round 7: an optional line whose declared product fails below itself, then siblings (real code and decision-fed model)
+    fopt = [gen_scenario_failed_optional(ctx.rng) for _ in range(ctx.size(FAILED_OPT, 300))]
+    for sc in fopt:
+        ctx.bump("family:" + sc["world"]["family"])
+    S.run_scenarios(ctx, fopt, oracle)
     # products set up from a DIRECTORY (setup -r dir, version LOCAL:dir): outside the setup models, run on the real code
     # and judged by the oracle alone - --keep must retain them like any other product
     S.run_scenarios_local(ctx, [S.gen_scenario_local(ctx.rng) for _ in range(ctx.size(LOCAL_DIR, 300))], oracle_local)
